@@ -228,6 +228,84 @@ Example C18_late_registration_example_boundary :
   /\ called nobody w_after_exit = [1].
 Proof. exact example_after_exit. Qed.
 
+(** ---- the GENERAL form (any number of generations of late threads, close() with nothing registered):
+    [registered_before_monitor_exit raises ls] (DoneCb/Late.v, a function of the observable history
+    alone) = the threads whose register() returned before the monitor thread ended (t is recorded at its
+    EvRegistered iff no EvMonExit has occurred).  That is the exact boundary: the monitor's final exit
+    check runs under the lock up to the release that ends the thread, a register() returns with the
+    release of the same lock after its `add` (C18_late_registration_general_example_boundary). *)
+Theorem C18_late_registration_general_spec : forall raises ls t,
+  In t (registered_before_monitor_exit raises ls) <->
+  exists ls1 ls2, ls = ls1 ++ Step (Reg t) :: ls2 /\
+    In (EvRegistered t) (evs_of (snd (step raises (run raises ls1) (Step (Reg t))))) /\
+    monitor_exits raises ls1 = [].
+Proof. exact general_spec. Qed.
+
+(** it includes the threads registered before close() was called and the one-generation late threads *)
+Theorem C18_late_registration_general_includes : forall raises ls t,
+  In t (registered_before_close raises ls ++ registered_while_close_waits raises ls) ->
+  In t (registered_before_monitor_exit raises ls).
+Proof. exact general_includes. Qed.
+
+(** only registered threads; and as long as the monitor thread runs, EVERY registered thread *)
+Theorem C18_late_registration_general_registered : forall raises ls t,
+  In t (registered_before_monitor_exit raises ls) -> In t (registered raises ls).
+Proof. exact general_registered. Qed.
+
+Theorem C18_late_registration_general_all_while_running : forall raises ls,
+  monitor_exits raises ls = [] ->
+  forall t, In t (registered raises ls) -> In t (registered_before_monitor_exit raises ls).
+Proof. exact general_all_while_running. Qed.
+
+(** once close() has returned, every thread whose register() returned before the monitor thread ended
+    has ended and its callback was invoked exactly once (every schedule, every number of threads and
+    of generations of late threads, every [raises]) *)
+Theorem C18_late_registration_general_exactly_once : forall raises ls e,
+  In e (close_results raises ls) ->
+  forall t, In t (registered_before_monitor_exit raises ls) ->
+    count_occ Nat.eq_dec (called raises ls) t = 1 /\ In t (ended raises ls).
+Proof. exact general_exactly_once. Qed.
+
+Theorem C18_late_registration_general_close_waits : forall raises ls e,
+  In e (close_results raises ls) ->
+  forall t, In t (registered_before_monitor_exit raises ls) ->
+    In t (called raises ls) /\ In t (ended raises ls).
+Proof. exact general_close_waits. Qed.
+
+(** the monitor thread itself does not end before (exactly once, at the moment it ends) *)
+Theorem C18_late_registration_general_monitor_waits : forall raises ls e,
+  In e (monitor_exits raises ls) ->
+  forall t, In t (registered_before_monitor_exit raises ls) ->
+    count_occ Nat.eq_dec (called raises ls) t = 1 /\ In t (ended raises ls).
+Proof. exact general_monitor_exactly_once. Qed.
+
+(** non-vacuity: a CHAIN of two late threads (3 registers while close() waits only for the late
+    thread 2: outside [registered_while_close_waits], inside the general set, called back); close()
+    called with nothing registered yet; a raising callback of the chain-late thread is re-raised *)
+Example C18_late_registration_general_example_nonvacuous :
+  (close_results nobody w_chain = [None]
+   /\ registered_before_close nobody w_chain = [1]
+   /\ registered_while_close_waits nobody w_chain = [2]
+   /\ registered_before_monitor_exit nobody w_chain = [3; 2; 1]
+   /\ called nobody w_chain = [3; 2; 1] /\ ended nobody w_chain = [3; 2; 1])
+  /\ (close_results nobody w_close_first = [None]
+      /\ registered_before_close nobody w_close_first = []
+      /\ registered_while_close_waits nobody w_close_first = []
+      /\ registered_before_monitor_exit nobody w_close_first = [1]
+      /\ called nobody w_close_first = [1] /\ ended nobody w_close_first = [1])
+  /\ (close_results (fun t => t =? 3) w_chain = [Some (ExCb 3)]
+      /\ called (fun t => t =? 3) w_chain = [3; 2; 1]).
+Proof. exact example_general. Qed.
+
+(** the boundary witness: a register() that returns after the monitor thread ended is not in the set
+    and is never called back *)
+Example C18_late_registration_general_example_boundary :
+  close_results nobody w_after_exit = [None] /\ monitor_exits nobody w_after_exit = [None]
+  /\ registered nobody w_after_exit = [2; 1] /\ ended nobody w_after_exit = [2; 1]
+  /\ registered_before_monitor_exit nobody w_after_exit = [1]
+  /\ called nobody w_after_exit = [1].
+Proof. exact example_general_boundary. Qed.
+
 (** task half: exactly once for every task registered and ended, for every completion order *)
 Theorem C18_task_exactly_once : forall raises os, twf os ->
   NoDup (tcalled (touts raises os)) /\
@@ -482,6 +560,15 @@ Print Assumptions C18_late_registration_close_waits.
 Print Assumptions C18_late_registration_monitor_waits.
 Print Assumptions C18_late_registration_example_nonvacuous.
 Print Assumptions C18_late_registration_example_boundary.
+Print Assumptions C18_late_registration_general_spec.
+Print Assumptions C18_late_registration_general_includes.
+Print Assumptions C18_late_registration_general_registered.
+Print Assumptions C18_late_registration_general_all_while_running.
+Print Assumptions C18_late_registration_general_exactly_once.
+Print Assumptions C18_late_registration_general_close_waits.
+Print Assumptions C18_late_registration_general_monitor_waits.
+Print Assumptions C18_late_registration_general_example_nonvacuous.
+Print Assumptions C18_late_registration_general_example_boundary.
 Print Assumptions C18_task_exactly_once.
 Print Assumptions C18_task_close_waits.
 Print Assumptions C18_example_former_witnesses.
